@@ -66,6 +66,18 @@ def run(ck, prog, ctx):
                 c = ai.class_at(b, site["pos"], site["den"])
                 ok = c in (absint.P, absint.NZ) or c is None
                 if not ok:
+                    # second opinion, path by path (a guard spelled `x == 0 && y == 0` leaves, on each path, one addend positive)
+                    cp = ai.class_at_pathwise(b, site["pos"], site["den"])
+                    if cp in (absint.P, absint.NZ):
+                        c, ok = cp, True
+                if not ok and c == absint.T:
+                    # the divisor is computed from the result of a PRIVATE helper whose sign the interpreter cannot summarise (a `fold` / `sum` over a
+                    # closure): the reviewed tree had a public measure with a stated range there
+                    priv = [a for a in Prov(prog, inline=False).of_operand(b, site["den"]) if a[0] == "call" and a[1] in prog.bodies and prog.bodies[a[1]].file == FILE and not (prog.bodies[a[1]].exported or prog.bodies[a[1]].reachable or prog.bodies[a[1]].impl_trait)]
+                    if priv:
+                        ck.undecided("GUARD", key, "%s divides by a value computed from the private helper %s, whose range is not known to the sign analysis" % (oshort, prog.bodies[priv[0][1]].short), where=b.where(site["line"]))
+                        continue
+                if not ok:
                     ex = [r for rx, r in EXEMPT_DIV.items() if re.search(rx, owner)]
                     if ex:
                         ck.ob("GUARD", key, True, "exempted division in %s (divisor class %s): %s" % (oshort, c, ex[0]), where=b.where(site["line"]))
@@ -124,7 +136,7 @@ def run(ck, prog, ctx):
               ("%s can return a result (line %s) before the identity test: identical terms are not guaranteed to score 1" % (name, early[0][1].line)), where=b.where(t.line))
 
     # ------------------------------------------------------------------ DISPATCH
-    def dispatch(body, enum_path, label_of_call, min_arms, what):
+    def dispatch(body, enum_path, label_of_call, min_arms, what, soft=False):
         arms_l = enum_arms(prog, body, enum_path)
         total = 0
         for sw in arms_l:
@@ -149,7 +161,7 @@ def run(ck, prog, ctx):
                     ck.violation("DISPATCH", key, "arm %s of %s dispatches to %s" % (vname, what, t.callee.def_args), where=body.where(t.line))
                 else:
                     ck.ob("DISPATCH", key, True, "arm %s of %s dispatches to %s" % (vname, what, right[0][1].callee.def_args), where=body.where(right[0][1].line))
-        ck.floor("DISPATCH", what + " arms", total, min_arms)
+        ck.floor("DISPATCH", what + " arms", total, min_arms, soft=soft)
 
     bt = prog.body("<similarity::Builtins as similarity::Similarity>::calculate")
     if ck.anchor("DISPATCH", "impl Similarity for Builtins", bt):
@@ -165,7 +177,7 @@ def run(ck, prog, ctx):
         dispatch(bt, "similarity::Builtins", lab_builtin, 8, "Builtins::calculate")
     gk = prog.body("term::information_content::InformationContent::get_kind")
     if ck.anchor("DISPATCH", "InformationContent::get_kind", gk):
-        dispatch(gk, "term::information_content::InformationContentKind", lambda c: sorted(kind_of_callee(c)), 3, "InformationContent::get_kind")
+        dispatch(gk, "term::information_content::InformationContentKind", lambda c: sorted(kind_of_callee(c)), 3, "InformationContent::get_kind", soft=True)
     mc = prog.body("<similarity::defaults::Mutation as similarity::Similarity>::calculate")
     if ck.anchor("DISPATCH", "impl Similarity for Mutation", mc):
         dispatch(mc, "term::information_content::InformationContentKind", lambda c: sorted(kind_of_callee(c)), 3, "Mutation::calculate")
@@ -369,6 +381,88 @@ def run(ck, prog, ctx):
         ck.ob("FORMULA", "Distance/source", ok, "Distance scores distance_to_term(a, b)" if ok else "Distance does not score distance_to_term of its two arguments", where=db.where())
     ck.floor("FORMULA", "formula instances examined (decided or undecided)", n_formula, 4)
 
+    # ------------------------------------------------------------------ WHEN: on which inputs a measure answers with a constant instead of its formula
+    ck.rule("WHEN", "the condition under which a measure returns a constant (0 for an undefined quotient, 1 for identical terms) is, as a truth table over "
+                    "`same term` and `leaf == 0` (information contents and their sums are >= 0, so `x + y == 0` is `x == 0 and y == 0`, `x > 0` is `not x == 0`), "
+                    "the one confirmed on the reviewed tree: everywhere else the formula decides")
+    import itertools
+    from engines import bool_table
+    from expr import affine as _affine
+
+    def when_atom(kind, lo, ro, body):
+        # identity of the two terms
+        if kind == "Eq":
+            srcs = []
+            for o in (lo, ro):
+                at = pv_ni.of_operand(body, o)
+                if any(a[0] == "call" and a[1].endswith("::id") for a in at):
+                    srcs.append(frozenset(params_of(pv.of_operand(body, o), body.id)))
+            if sorted(map(sorted, srcs)) == [[2], [3]]:
+                return ("same",)
+        # a comparison of a non-negative quantity with the constant 0
+        for e_op, z_op, e_left in ((lo, ro, True), (ro, lo, False)):
+            if z_op.kind == "const" and z_op.float_value() == 0.0:
+                a = _affine(EX.operand(body, e_op))
+                if a is None or a.get((), 0) != 0 or not a or any(v <= 0 for k_, v in a.items() if k_ != ()):
+                    return None
+                syms = frozenset(k_ for k_ in a if k_ != ())
+                if kind == "Eq":
+                    return ("allzero", syms)
+                # kind is l OP r with OP in (Lt, Gt): E > 0 / 0 < E  <=> not all zero;  E < 0 / 0 > E never holds
+                if (kind == "Gt") == e_left:
+                    return ("pos", syms)
+                return ("neg", syms)
+        return None
+
+    def atom_value(k_, z, same):
+        if k_ == ("same",):
+            return same
+        if k_[0] == "allzero":
+            return all(z[s_] for s_ in k_[1])
+        if k_[0] == "pos":
+            return not all(z[s_] for s_ in k_[1])
+        return False
+    WHEN = [
+        ("Lin", IMPL % "Lin", lambda z, same: {0.0: z.get(("IC(a)",), z.get("IC(a)")) and z.get(("IC(b)",), z.get("IC(b)"))}, "0 exactly when IC(a) + IC(b) == 0"),
+        ("Jc", IMPL % "Jc", lambda z, same: {1.0: same, 0.0: (not same) and (z.get(("IC(a)",), z.get("IC(a)")) or z.get(("IC(b)",), z.get("IC(b)")))}, "1 for identical terms, else 0 exactly when IC(a) == 0 or IC(b) == 0"),
+        ("GraphIc", IMPL % "GraphIc", lambda z, same: {1.0: same, 0.0: (not same) and z.get(("sumIC(all_union_ancestors)",), z.get("sumIC(all_union_ancestors)"))}, "1 for identical terms, else 0 exactly when the IC sum over the union ancestors is 0"),
+    ]
+    for name, bid, ref, text in WHEN:
+        fb = prog.body(bid)
+        if fb is None:
+            continue
+        rows = bool_table(fb, when_atom, value_result=True)
+        if rows is None:
+            ck.undecided("WHEN", name, "the branches of %s are not all comparisons of IC values / IC sums with 0 or the identity test" % name, where=fb.where())
+            continue
+        if not any(r_[0] == "const" for asg, r_ in rows):
+            # the whole value comes from a crate-local helper (`lin_score(a, b, kind)`): its guards live there
+            deleg = [t for _, t in fb.calls() if t.dest is not None and t.dest.is_local() and t.dest.local == 0 and (t.callee.res or "") in prog.bodies and prog.bodies[t.callee.res].file == FILE]
+            if deleg:
+                ck.undecided("WHEN", name, "%s hands its whole result over to %s: where that helper answers with a constant is not compared with the reviewed convention" % (name, prog.bodies[deleg[0].callee.res].short), where=fb.where())
+                continue
+        keys = {k_ for asg, r_ in rows for k_ in asg}
+        syms = sorted({s_ for k_ in keys if k_ != ("same",) for s_ in k_[1]}, key=str)
+        need = {"Lin": ["IC(a)", "IC(b)"], "Jc": ["IC(a)", "IC(b)"], "GraphIc": ["sumIC(all_union_ancestors)"]}[name]
+        all_syms = sorted(set(syms) | {(n_,) for n_ in need} if syms and isinstance(syms[0], tuple) else set(syms) | set(need), key=str)
+        bad = None
+        for bits in itertools.product((False, True), repeat=len(all_syms) + 1):
+            same = bits[0]
+            z = dict(zip(all_syms, bits[1:]))
+            got = None
+            for asg, r_ in rows:
+                if all(atom_value(k_, z, same) == v_ for k_, v_ in asg.items()):
+                    got = r_
+                    break
+            want = ref(z, same)
+            want_c = next((c_ for c_, cond in want.items() if cond), None)
+            got_c = got[1] if got is not None and got[0] == "const" else None
+            if got is None or got_c != want_c:
+                bad = (same, z, got_c, want_c)
+                break
+        ck.ob("WHEN", name, bad is None, "%s answers with a constant %s (%d-row table over %s)" % (name, text, 2 ** (len(all_syms) + 1), ["same term"] + ["%s == 0" % (s_[0] if isinstance(s_, tuple) else s_) for s_ in all_syms]) if bad is None else
+              "%s: for %s%s the result is %s, but the reviewed convention is %s (%s)" % (name, "identical terms, " if bad[0] else "", ", ".join("%s %s 0" % (s_[0] if isinstance(s_, tuple) else s_, "==" if v_ else ">") for s_, v_ in bad[1].items()), "the constant %s" % bad[2] if bad[2] is not None else "the formula", "the constant %s" % bad[3] if bad[3] is not None else "the formula", text), where=fb.where())
+
     # ------------------------------------------------------------------ KIND: the information-content kind is the one the measure was constructed with
     n_kind = 0
     kcnt = {}
@@ -401,7 +495,7 @@ def run(ck, prog, ctx):
             consts = [a for a in at if a[0] == "const" or (a[0] == "op" and False)]
             variants = [st for _, st in b.stmts() if st.k == "assign" and st.rv["k"] == "agg" and (st.rv.get("adt") or "").endswith("InformationContentKind")]
             ck.ob("KIND", "kind-of-measure/%s/%d" % (root.short, kcnt[root.short]), from_self and not variants, "%s passes %s to %s" % (root.short, "its own `kind`" if from_self and not variants else "a kind that is not (only) the one it was constructed with", r.rsplit("::", 2)[-2] + "::" + r.rsplit("::", 1)[-1]), where=b.where(t.line))
-    ck.floor("KIND", "kind arguments in the measures", n_kind, 5)
+    ck.floor("KIND", "kind arguments in the measures", n_kind, 5, soft=True)
 
     # ------------------------------------------------------------------ KIND K1: Mutation helpers
     n = 0
@@ -442,6 +536,8 @@ def run(ck, prog, ctx):
     # the counts that enter Jaccard / Distance go through a conversion helper that must be exact or fail
     from props.shared import check_exact_conversion
     check_exact_conversion(ck, "GUARD", prog, "similarity::usize_to_f32", "the set sizes / distances")
+    from props.shared import check_conversion_range
+    check_conversion_range(ck, "GUARD", prog, "similarity::usize_to_f32", 16, "set sizes and distances exceed 255 on real data (the helper's u16 bound is the reviewed one)")
     from engines import check_ctors
     check_ctors(ck, "CTOR", prog, r"^src/similarity/defaults\.rs$", floor=3)
     # the names accepted by Builtins::new select the measure of that name
